@@ -32,6 +32,7 @@ import numpy as np
 import pyttb as ttb
 
 from harness import gen
+from harness import lib
 from harness.lib import Family, Verdict, call, deep_eq, dense_j, drive, jval, sparse_j
 
 warnings.filterwarnings("ignore")
@@ -1160,7 +1161,8 @@ class Constructors(Family):
                     np.random.seed(c["npseed"])
                     np.random.uniform = spy
                     try:
-                        return ttb.sptenrand(tuple(s), nonzeros=c["nz"])
+                        with lib.unit_spellings(spy):
+                            return ttb.sptenrand(tuple(s), nonzeros=c["nz"])
                     finally:
                         np.random.uniform = orig
                 runs.append(([], call(draw), True))
